@@ -394,11 +394,13 @@ Ev_HSendCall(k) ==
 
 \* C20: responses whose send returned, against what the client can have
 \* consumed: one data frame per receive operation (two for single-response
-\* kinds, which read ahead), one for the first Header(), K buffered.
+\* kinds, which read ahead), one for the first Header(), K buffered.  Once
+\* the context is done every Header() may take a frame and drop it (the
+\* frame is read, then the context is looked at), not only the first.
 Chk_HSendRet(k, res) ==
   (IF res.k = "nil" /\ tr = "inproc"
    THEN V(Cardinality(hSendOk) + 1 <= cRecvStarted * (IF RespStream THEN 1 ELSE 2)
-                                        + (IF cHdrStarted > 0 THEN 1 ELSE 0) + K,
+                                        + (IF cctx = "live" THEN (IF cHdrStarted > 0 THEN 1 ELSE 0) ELSE cHdrStarted) + K,
           "C20", "response-sender-ran-ahead")
    ELSE {})
 
